@@ -89,7 +89,6 @@ Section Gen.
   Notation fits_tokens := (fits_tokens c u ok pyspace).
   Notation fits_attr := (fits_attr c u ok pyspace).
   Notation fits_text := (fits_text c u ok pyspace).
-  Notation wf_reach := (wf_reach u).
 
   (* ---------------------------------------------------------------- encoded values *)
   Definition enc_p (fmt : option str) (p : prim) : wval :=
@@ -739,16 +738,21 @@ Section Gen.
   Qed.
 
   (* ---------------------------------------------------------------- the induction *)
-  Definition wfr (cl : cls) : Prop := exists f, wf_reach f cl = true.
+  Definition wfr (cl : cls) : Prop := exists R, closed_ok u R = true /\ In cl R.
+
+  Lemma existsb_N_in k l : existsb (N.eqb k) l = true -> In k l.
+  Proof. intros H. apply existsb_exists in H as [x [Hx E]]. apply N.eqb_eq in E. subst x. exact Hx. Qed.
 
   Lemma wfr_inv cl : wfr cl -> exists m, u_meta u cl = Some m /\ m_clazz m = cl /\ wf_class m = true
     /\ forall e v k, In e (m_elements m) -> In v (snd e) -> v_clazz v = Some k -> wfr k.
   Proof.
-    intros [f H]. destruct f; [discriminate|]. cbn [Fits.wf_reach] in H.
-    destruct (u_meta u cl) as [m|]; [|discriminate]. peel H H1. peel H H0. apply N.eqb_eq in H.
+    intros [R [Hc Hin]]. unfold closed_ok in Hc. pose proof Hc as Hc0. rewrite forallb_forall in Hc. specialize (Hc cl Hin).
+    destruct (u_meta u cl) as [m|]; [|discriminate]. peel Hc H1. peel Hc H0. apply N.eqb_eq in Hc.
     exists m. repeat split; try assumption.
-    intros e v k He Hv Hk. rewrite forallb_forall in H1. specialize (H1 _ He).
-    rewrite forallb_forall in H1. specialize (H1 _ Hv). rewrite Hk in H1. exists f. exact H1.
+    intros e v k He Hv Hk. exists R. split; [exact Hc0|].
+    rewrite forallb_forall in H1. apply existsb_N_in. apply H1.
+    unfold class_children. apply in_flat_map. exists e. split; [exact He|].
+    apply in_flat_map. exists v. split; [exact Hv|]. rewrite Hk. left; reflexivity.
   Qed.
 
   Lemma fits_elem_prim_items var t l :
